@@ -393,6 +393,20 @@ pub fn gen_huge_n(rng: &mut Rng, n_classes: u64) -> Vec<u8> {
     out
 }
 
+/// One obfuscated method with `n` entries that all cover line 1 (a very deep inline chain) and `n`
+/// overloads sharing one name and parameter string: a single lookup matches thousands of entries.
+pub fn gen_deep(n: usize) -> Vec<u8> {
+    let mut out: Vec<u8> = b"com.example.Deep -> d.e:\n".to_vec();
+    for k in 0..n {
+        out.extend_from_slice(format!("    1:1:void level{}():{} -> x\n", k, k + 1).as_bytes());
+    }
+    out.extend_from_slice(b"com.example.Over -> o.v:\n");
+    for k in 0..n {
+        out.extend_from_slice(format!("    void over{}(int) -> y\n", k).as_bytes());
+    }
+    out
+}
+
 /// Like `gen_case`, but without wide classes (for enumerations that are quadratic in file size).
 pub fn gen_case_small(rng: &mut Rng, max_classes: u64, max_members: u64) -> (GenCfg, Vec<u8>) {
     let mut cfg = GenCfg::swarm(rng, max_classes, max_members);
